@@ -19,7 +19,7 @@ ASSUMPTIONS = ["token lists and state dictionaries of different partitions need 
 REQUIRED_FLAGS = ["signature_change", "empty_bar", "note_cut_by_bar_line", "side_track_shorter", "later_chunk_has_note",
                   "all_partitions_explored", "running_values_off", "unfused_flags", "requantise_on", "requantise_off"]
 
-SIG = {"44": (4, 4), "34": (3, 4), "68": (6, 8), "58": (5, 8)}
+SIG = {"44": (4, 4), "34": (3, 4), "38": (3, 8), "68": (6, 8), "58": (5, 8)}   # a 36-tick note fills a 3/8 bar exactly
 FL = list(itertools.product((True, False), repeat=4))
 
 
@@ -32,7 +32,8 @@ def plan_list(tier):
     names = list(SIG)
     for k in (1, 2, 3):
         out.extend(list(p) for p in itertools.product(names[:3], repeat=k))
-    out.extend([["44", "44", "44", "44"], ["34", "68", "44", "44"], ["58", "58", "34", "34"], ["44", "34", "34", "58"]])
+    out.extend([["44", "44", "44", "44"], ["34", "68", "44", "44"], ["58", "58", "34", "34"], ["44", "34", "34", "58"],
+                ["38", "38", "38", "38"], ["68", "38", "68", "38"]])
     if tier != "quick":
         out.extend(list(p) for p in itertools.product(names, repeat=4))
         out.extend([["44"] * 5, ["34", "34", "44", "44", "58"], ["44"] * 6, ["58", "34", "68", "44", "34", "58"]])
